@@ -163,6 +163,44 @@ def Store.store (s : Store) (order : List Nat) : Option (Store × List Line × B
     let (ls, left, ok) := storeOut es
     some ({ s with entries := left }, ls, ok)
 
+/-! ### `Store.Store` when a disk buffer cannot be read back
+
+  A fault `(ref, k)` says: the disk buffer of the entry `ref` yields its first
+  `k` lines and then fails (the file was closed, truncated, or the read returns
+  an I/O error).  `bufShim.MarshalJSON` then returns the scanner's error (or no
+  bytes at all), `enc.Encode` writes nothing for that `diskEntry` and returns
+  an error — the same path a line of 1 MiB or more takes. -/
+
+/-- The fault of the entry `ref`, if one is listed. -/
+def cutOf (faults : List (Nat × Nat)) (ref : Nat) : Option Nat :=
+  (faults.find? (·.1 == ref)).map (·.2)
+
+/-- The `ct` loop for one entry whose buffer fails after `k` lines (if `k` is
+    less than the number of lines it holds). -/
+def emitCut (e : Entry) : Option Nat → List Line × Bool
+  | none => emitRecs e e.recs
+  | some k =>
+    if k < e.recs.length then ((emitRecs e (e.recs.take k)).1, false)
+    else emitRecs e e.recs
+
+/-- `Store.Store` with disk-buffer faults; `storeOut` is the case of no fault. -/
+def storeOutF (faults : List (Nat × Nat)) : List Entry → List Line × List Entry × Bool
+  | [] => ([], [], true)
+  | e :: es =>
+    let (ls, ok) := emitCut e (cutOf faults e.ref)
+    if ok then
+      let (ls', left, ok') := storeOutF faults es
+      (ls ++ ls', left, ok')
+    else (ls, es, false)
+
+def Store.storeF (s : Store) (order : List Nat) (faults : List (Nat × Nat)) :
+    Option (Store × List Line × Bool) :=
+  match arrange s.entries order with
+  | none => none
+  | some es =>
+    let (ls, left, ok) := storeOutF faults es
+    some ({ s with entries := left }, ls, ok)
+
 /-- `Initialized`. -/
 def Store.initialized (s : Store) : Bool := !s.entries.isEmpty
 
@@ -285,7 +323,11 @@ def Entry.loaded (e : Entry) : LEntry :=
 inductive Op where
   | record (k : Kind) (updater fp : String) (recs : List Rec) (cands : List Nat)
   | delta (updater fp : String) (recs : List Rec) (deleted : List String) (cands : List Nat)
-  | store (order : List Nat)
+  | store (order : List Nat) (faults : List (Nat × Nat))
+  /-- a recording call that returns an error before it takes the lock: `diskBuf`
+      fails (no temp file can be created) or the per-update encoder fails on a
+      record; the call returns `uuid.Nil, err` and the store is untouched -/
+  | failed (k : Kind) (updater fp : String) (recs : List Rec)
 deriving Repr
 
 /-- The store plus everything written so far to the one `io.Writer` all `Store`
@@ -302,6 +344,7 @@ inductive Out where
   | hang                       -- the ref loop never found a free key
   | stored (ok : Bool) (lines : List Line) (left : List Nat)
   | badOrder
+  | err                        -- the recording call returned an error
 deriving Repr
 
 def step (w : World) : Op → World × Out
@@ -313,10 +356,11 @@ def step (w : World) : Op → World × Out
     match w.store.recordDelta u f recs del cands with
     | (s', some (r, used)) => ({ w with store := s' }, .ref r used)
     | (_, none) => (w, .hang)
-  | .store order =>
-    match w.store.store order with
+  | .store order faults =>
+    match w.store.storeF order faults with
     | none => (w, .badOrder)
     | some (s', ls, ok) => ({ store := s', out := w.out ++ ls }, .stored ok ls (s'.entries.map (·.ref)))
+  | .failed _ _ _ _ => (w, .err)
 
 /-! ### OfflineImport's loop -/
 
